@@ -169,7 +169,14 @@ class ReduceProp(Prop):
                 rep.dist["model:" + model["kind"]] += 1
                 d1 = cmp_impl_model(c, im, model)
                 if d1:
-                    rep.tie1.append((asdict(c), d1))
+                    # inside the cell of a recorded open defect the implementation's output is unspecified (e.g. numbagg's
+                    # uninitialised slots for empty groups, finding F9): the defect is reported through KNOWN-FINDING, the
+                    # model is not expected to reproduce the garbage.  Everywhere else a mismatch breaks the tie.
+                    d3pre = self.direct_check(c, im, orc)
+                    if d3pre and any(self.match_finding(f, asdict(c), d3pre) for f in self._open_findings()):
+                        rep.dist["tie1-mismatch-inside-known-finding-cell"] += 1
+                    else:
+                        rep.tie1.append((asdict(c), d1))
                 d2 = cmp_oracle_spec(c, orc, spec)
                 if d2:
                     rep.tie2.append((asdict(c), d2))
@@ -194,6 +201,11 @@ class ReduceProp(Prop):
         self.run_cases([Case(**d)], rep)
 
     # known findings -------------------------------------------------------------------------------
+    def _open_findings(self):
+        if not hasattr(self, "_open_f"):
+            self._open_f = [f for f in core.load_findings() if f.get("property") == self.id and f.get("status") == "open"]
+        return self._open_f
+
     def match_finding(self, finding, case, detail) -> bool:
         from . import findings
 
@@ -212,7 +224,7 @@ class ReduceProp(Prop):
         c = Case(**d)
         im = run_impl(c)
         orc = run_oracle(c)
-        det = self.direct_check(c, im, orc)
+        det = self.direct_check(c, im, orc) or self.extra_checks(c, im, Report())
         return bool(det) and self.match_finding(finding, asdict(c), det)
 
 
@@ -300,7 +312,13 @@ class C03(ReduceProp):
         else:
             ok = np.array_equal(a, b, equal_nan=True) if a.dtype.kind == "f" else np.array_equal(a, b)
         if not ok:
-            return f"value depends on split_every/scheduler: {a.tolist()} (se={c.split_every},{c.scheduler}) vs {b.tolist()} (se=4,sync)"
+            try:
+                neq = ~((a == b) | ((a != a) & (b != b))) if a.dtype.kind == "f" else (a != b)
+                labs = [x.item() if hasattr(x, "item") else x for x in np.asarray(impl["groups"]).reshape(-1)[neq.reshape(-1)].tolist()]
+            except Exception:  # noqa
+                labs = "?"
+            return (f"value depends on split_every/scheduler at labels {labs}: {a.tolist()} (se={c.split_every},{c.scheduler}) "
+                    f"vs {b.tolist()} (se=4,sync)")
         return None
 
 
